@@ -11,6 +11,7 @@ from vlib import env
 
 VERIF = env.VERIF
 NPROC = int(os.environ.get("VERIF_JOBS", "16"))
+THOROUGH_CAP = int(os.environ.get("VERIF_THOROUGH_CAP", "10"))
 
 
 # ------------------------------------------------------------------------------------ verdicts
@@ -48,7 +49,9 @@ class Sub:
         self.run_case = run_case
         self.strategy = strategy
         self.enum = enum
-        self.examples = examples
+        # the thorough tier explores at most THOROUGH_CAP times the quick case count per sub-check (plus its larger bounds and the
+        # enumerated sub-domains): every thorough tier ends within the hour on 16 cores
+        self.examples = (examples[0], min(examples[1], THOROUGH_CAP * examples[0]))
         self.rule = rule
         self.shards = shards
         self.exhaustive = exhaustive
